@@ -13,6 +13,8 @@ from . import core
 
 
 def default_compare(rec):
+    if rec["model"] == "-":       # op without a model run: Spec alone decides
+        return None
     if rec["impl"] != rec["model"]:
         return "model=%s impl=%s" % (rec["model"], rec["impl"])
     return None
